@@ -9,7 +9,7 @@ static inline QString vf_string(int maxlen, bool allowNull, unsigned lo = 0x20, 
     for (int i = 0; i < maxlen; ++i) {
         unsigned short c = vf_nondet_u16();
         if (i < n) {
-            vf_assume(c >= lo && c <= hi);
+            c = (unsigned short)vf_clamp(c, (int)lo, (int)hi);
             s.append(QChar(c));
         }
     }
